@@ -285,7 +285,7 @@ def _linectr_inv(ctx: Ctx, res: RuleResult):
     repo = ctx.repo
     k = repo.cls(LINECTR)
     mutators = []
-    for m in k.methods.values():
+    for m in k.swept_methods():
         if m.name == '__init__':
             continue
         asg = _self_assigns(m)
@@ -584,7 +584,7 @@ def _chase_membership(ctx: Ctx, f: FuncInfo, arg: ast.AST) -> Tuple[bool, str]:
     k = f.owner_class
     defs = []
     for c in (k.mro() if k else []):
-        for m in c.methods.values():
+        for m in c.swept_methods():
             for n in m.body_nodes():
                 if isinstance(n, ast.Assign):
                     for t in n.targets:
